@@ -11,6 +11,14 @@ random, rendered as real FPy source, and
       also compared with the model's `run` (pre-pass + execution) on the oracle the inputs induce;
   (c) the same source is executed by CPython itself (every program, rejected ones included) and
       compared with the model's `exec`: the binding semantics the theorems are stated over.
+The ENVIRONMENT the decorator sees is varied systematically: every program is also rendered with its
+locals named like builtins (max, min, abs, sum, range, round, pow, int, float, list, id, all), like
+module-level globals of the generated module (numbers; a Python function, an @fpy function, the modules
+`math` and `fp`), like closure variables of an enclosing def, like the function's own name and like
+its parameter.  A name bound anywhere at function level is a local (Python's rule, taken from CPython's
+own symbol table), whatever else of that name is resolvable; the others are free variables and bound
+on entry.  So "defined on some paths only / in a loop that may run zero times / only as a
+comprehension target" is crossed with "…and something of that name exists outside".
 Any violation is a new defect (`finding: None`).  History: F6 (loop target accepted after its loop)
 and F21 (name lent by the sibling of a returning branch unknown to the interpreter's definition/use
 pre-pass) were found by this check and repaired; the model's `legacy` mode / `prepass_legacy` keep the
@@ -109,8 +117,10 @@ NUMERIC = ('a',)
 
 class Build:
     """turns an abstract body into (surface body, sites); sites: list of (kind, argname, pattern|None)"""
-    def __init__(self, R):
+    def __init__(self, R, a_numeric=True, nobare=()):
         self.R = R; self.sites = []
+        self.nobare = set(nobare)   # free variables (functions, modules, ...): only ever mentioned inside len([...])
+        self.NUMERIC = NUMERIC if a_numeric else ()
     def site(self, kind, pat=None):
         pre = {'if': 'k', 'while': 'w', 'for': 'xs', 'comp': 'ys'}[kind]
         name = f'{pre}{sum(1 for s in self.sites if s[0] == kind)}'
@@ -137,11 +147,11 @@ class Build:
         if len(ps) == 1:
             p = ps[0]
             if p[0] == 'comp' and allow_any: return p
-            if p[0] == 'var' and (allow_any or p[1] in numeric or p[1] in NUMERIC) and R.random() < 0.6:
+            if p[0] == 'var' and p[1] not in self.nobare and (allow_any or p[1] in numeric or p[1] in self.NUMERIC) and R.random() < 0.6:
                 return p
             return ('len', ps)
         # several parts
-        if all(p[0] == 'var' and (p[1] in numeric or p[1] in NUMERIC) for p in ps) and R.random() < 0.5:
+        if all(p[0] == 'var' and (p[1] in numeric or p[1] in self.NUMERIC) for p in ps) and R.random() < 0.5:
             out = ps[0]
             for p in ps[1:]: out = ('bin', R.choice('+-*'), out, p)
             return out
@@ -184,7 +194,7 @@ class Build:
             return ('F', s[1], it, self.block(s[3]), xs)
         if k == 'X':
             ps = self.parts(s[1])
-            e = ('attr', 'fp', 'FP64') if not ps else ('ifexp', ('gt0', ('len', ps)), ('attr', 'fp', 'FP64'), ('attr', 'fp', 'FP32'))
+            e = ('attr', 'fq', 'FP64') if not ps else ('ifexp', ('gt0', ('len', ps)), ('attr', 'fq', 'FP64'), ('attr', 'fq', 'FP32'))
             return ('X', e, s[2], self.block(s[3]))
         if k == 'R': return ('R', self.num(s[1]))
         if k == 'E':
@@ -221,7 +231,7 @@ def stmt_model(s):
 
 class Namer:
     """names -> naturals for the driver (fixed scheme, so encodings are canonical)"""
-    BASE = {'fp': 0, 'a': 1}
+    BASE = {'fq': 0, 'a': 1}
     PRE = [('xs', 300), ('ys', 400), ('k', 100), ('w', 200), ('v', 10), ('t', 50)]
     @classmethod
     def num(cls, n):
@@ -300,23 +310,164 @@ def simulate(body, inp):
         pass
     return out
 
+# ---------------------------------------------------------------------------
+# the environment the decorator sees: what the program's LOCAL names collide with
+
+import builtins as _builtins
+BUILTIN_NAMES = ['max', 'min', 'abs', 'sum', 'range', 'round', 'pow', 'int', 'float', 'list', 'id', 'all']
+GNUM_NAMES = ['scale', 'acc', 'total', 'eps']
+GOBJ_NAMES = ['helper', 'gfun', 'math', 'fp']
+CLOSURE_NAMES = ['cv0', 'cv1', 'cv2', 'cv3']
+PRELUDE = (
+    'import fpy2 as fq\n'
+    'import fpy2 as fp\n'
+    'import math\n'
+    'scale = 2.0\nacc = 0.0\ntotal = 1.5\neps = 0.25\n'
+    'def helper(x):\n    return x\n'
+    '@fq.fpy\n'
+    'def gfun(x):\n    return x\n\n')
+MODULE_GLOBALS = {'fq', 'fp', 'math', 'helper', 'gfun'} | set(GNUM_NAMES)
+SCHEMES = ['plain', 'builtin', 'gnum', 'gobj', 'closure', 'self', 'mixed']
+
+def make_scheme(R, kind, fname):
+    """-> (rename: pool variable -> identifier, closure: bool).  The identifier is what the program's
+    local is CALLED; whether it is a local or a free variable is decided by the program (a name bound
+    anywhere at function level is a local, Python's rule)."""
+    V = [f'v{i}' for i in range(4)]
+    if kind == 'plain': return {}, False
+    if kind == 'builtin': return dict(zip(V, R.sample(BUILTIN_NAMES, 4))), False
+    if kind == 'gnum': return dict(zip(V, R.sample(GNUM_NAMES, 4))), False
+    if kind == 'gobj': return dict(zip(V, R.sample(GOBJ_NAMES, 4))), False
+    if kind == 'closure': return dict(zip(V, CLOSURE_NAMES)), True
+    if kind == 'self':
+        rest = R.sample(BUILTIN_NAMES + GNUM_NAMES, 2)
+        order = [fname, 'a'] if R.random() < 0.5 else ['a', fname]
+        return dict(zip(V, order + rest)), False
+    # mixed: every variable draws independently
+    menu = BUILTIN_NAMES + GNUM_NAMES + GOBJ_NAMES + CLOSURE_NAMES + [fname, 'a']
+    out = {}
+    for v in V:
+        if R.random() < 0.25: continue
+        c = R.choice([m for m in menu if m not in out.values()])
+        out[v] = c
+    return out, any(c in CLOSURE_NAMES for c in out.values())
+
+def subst_abs(blk, v, new):
+    """rename pool variable v to `new` throughout an abstract block (used for collisions with a parameter)"""
+    def nm(u): return new if u == v else u
+    def pat(p):
+        if p[0] == 'n': return ('n', nm(p[1]))
+        if p[0] == '_': return p
+        return ('t', tuple(pat(q) for q in p[1]))
+    def ex(ae):
+        uses, comp = ae
+        c = None if comp is None else (pat(comp[0]), tuple(nm(u) for u in comp[1]), ex(comp[2]))
+        return (tuple(nm(u) for u in uses), c)
+    out = []
+    for s in blk:
+        k = s[0]
+        if k == 'A': out.append(('A', pat(s[1]), ex(s[2])))
+        elif k == 'I': out.append(('I', ex(s[1]), subst_abs(s[2], v, new), subst_abs(s[3], v, new)))
+        elif k in ('J', 'W'): out.append((k, ex(s[1]), subst_abs(s[2], v, new)))
+        elif k == 'F': out.append(('F', pat(s[1]), tuple(nm(u) for u in s[2]), subst_abs(s[3], v, new)))
+        elif k == 'X': out.append(('X', ex(s[1]), None if s[2] is None else nm(s[2]), subst_abs(s[3], v, new)))
+        elif k in ('R', 'E'): out.append((k, ex(s[1])))
+        else: out.append(s)
+    return out
+
+def names_of(blk, local, used):
+    """function-level binding names (assignment / for / with-as targets: Python makes them locals) and
+    every name mentioned (comprehension targets are not function-level)"""
+    def ex(ae):
+        used.update(ae[0])
+        if ae[1] is not None:
+            used.update(ae[1][1]); used.update(pat_names(ae[1][0])); ex(ae[1][2])
+    for s in blk:
+        k = s[0]
+        if k == 'A': local.update(pat_names(s[1])); ex(s[2])
+        elif k == 'I': ex(s[1]); names_of(s[2], local, used); names_of(s[3], local, used)
+        elif k in ('J', 'W'): ex(s[1]); names_of(s[2], local, used)
+        elif k == 'F': local.update(pat_names(s[1])); used.update(s[2]); names_of(s[3], local, used)
+        elif k == 'X':
+            ex(s[1])
+            if s[2]: local.add(s[2])
+            names_of(s[3], local, used)
+        elif k in ('R', 'E'): ex(s[1])
+    used.update(local)
+
 class Prog:
-    __slots__ = ('abs', 'body', 'sites', 'args', 'src', 'toks', 'fname', 'origin', 'real', 'fn', 'py')
-    def __init__(self, abs_body, R, idx, origin):
-        b = Build(R)
+    __slots__ = ('abs', 'body', 'sites', 'args', 'src', 'toks', 'fname', 'origin', 'real', 'fn', 'py',
+                 'scheme', 'rename', 'unrename', 'free', 'collisions')
+    def __init__(self, abs_body, R, idx, origin, scheme='plain'):
+        import re
+        self.fname = f'p{idx}'
+        self.scheme = scheme
+        rename, closure = make_scheme(R, scheme, self.fname)
+        # a local named like the parameter IS the parameter
+        for v, ident in list(rename.items()):
+            if ident == 'a':
+                abs_body = subst_abs(abs_body, v, 'a'); del rename[v]
+        local, used = set(), set()
+        names_of(abs_body, local, used)
+        rename = {v: c for v, c in rename.items() if v in used}
+        closure = closure and any(c in CLOSURE_NAMES for c in rename.values())
+        resolvable = MODULE_GLOBALS | set(dir(_builtins)) | {self.fname} | (set(CLOSURE_NAMES) if closure else set())
+        self.free = []   # set below, once the source text exists
+        self.collisions = sorted(c for v, c in rename.items() if v in local) + (['a'] if 'a' in local else [])
+        self.rename = rename
+        self.unrename = {c: v for v, c in rename.items()}
+        # free variables = what CPython itself compiles as a global / closure reference in this function
+        # (its symbol table is the ground truth for "local or not": a name bound anywhere at function
+        # level is a local; 3.12's inlined comprehensions have corner cases of their own) and that the
+        # defining environment resolves.  Rendering does not change which names are mentioned where, so a
+        # provisional rendering (no free variables protected) is compiled first.
+        def code_names(text):
+            def find(co):
+                if co.co_name == self.fname: return co
+                for c in co.co_consts:
+                    if hasattr(c, 'co_code'):
+                        r = find(c)
+                        if r is not None: return r
+                return None
+            co = find(compile(text, '<c15>', 'exec'))
+            return set(co.co_names) | set(co.co_freevars)
+        def render(body, args):
+            lines = [f'def {self.fname}({", ".join(args)}):']
+            for st in body: stmt_src(st, 1, lines)
+            text = '\n'.join(lines) + '\n'
+            if rename:
+                text = re.sub(r'\bv\d+\b', lambda m: rename.get(m.group(0), m.group(0)), text)
+            if closure:
+                inner = ''.join('    ' + l + '\n' for l in text.splitlines())
+                text = (f'def _mk_{self.fname}():\n' + ''.join(f'    {c} = {i + 2}.5\n' for i, c in enumerate(CLOSURE_NAMES))
+                        + inner + f'    return {self.fname}\n{self.fname} = _mk_{self.fname}()\n')
+            return text
+        cand = sorted(v for v in used if v.startswith('v') and v not in local and rename.get(v, v) in resolvable)
+        if cand:
+            st0 = R.getstate()
+            b0 = Build(R, a_numeric=('a' not in local), nobare=cand)
+            glob = code_names(render(b0.block(abs_body), ['a'] + [x[1] for x in b0.sites]))
+            R.setstate(st0)
+            self.free = [v for v in cand if rename.get(v, v) in glob]
+        b = Build(R, a_numeric=('a' not in local), nobare=cand)
         self.abs = abs_body
         self.body = b.block(abs_body)
         self.sites = b.sites
         self.args = ['a'] + [s[1] for s in b.sites]
-        self.fname = f'p{idx}'
-        lines = [f'def {self.fname}({", ".join(self.args)}):']
-        for s in self.body: stmt_src(s, 1, lines)
-        self.src = '\n'.join(lines) + '\n'
-        out = [str(len(self.args) + 1), '0'] + [str(Namer.num(a)) for a in self.args]
+        text = render(self.body, self.args)
+        self.src = text
+        margs = [Namer.num(a) for a in self.args] + [Namer.num(v) for v in self.free]
+        out = [str(len(margs) + 1), '0'] + [str(x) for x in margs]
         tok_block([stmt_model(s) for s in self.body], out)
         self.toks = ' '.join(out)
         self.origin = origin
         self.real = None; self.fn = None; self.py = None
+    def num(self, ident):
+        """identifier in the rendered source -> model name"""
+        return Namer.num(self.unrename.get(ident, ident))
+    def show(self, i):
+        n = Namer.name(int(i))
+        return self.rename.get(n, n)
     def inputs(self, R, cap):
         """steering inputs: every combination of branch outcomes and trip counts {0,1,2} (sampled above `cap`)"""
         doms = []
@@ -425,6 +576,24 @@ def enum_programs(max_size, pool, rich):
         for b in blocks(n):
             if canonical(b): yield list(b)
 
+def terminates(b):
+    """no path through the block reaches its end (used to pick programs, not to judge them)"""
+    for s in b:
+        k = s[0]
+        if k == 'R': return True
+        if k == 'I' and terminates(s[2]) and terminates(s[3]): return True
+        if k == 'X' and terminates(s[3]): return True
+    return False
+
+def lend_family(max_size):
+    """`if c: <block that always returns> else: v0 = a` (and mirrored), then `return v0`: the front end's
+    terminated paths and the interpreter's fall-through test must agree on EVERY shape of returning block"""
+    for t in enum_programs(max_size, 1, False):
+        if not terminates(t): continue
+        t1 = subst_abs(list(t), 'v0', 'v1')
+        yield [('I', E(), t1, [('A', N('v0'), E('a'))]), ('R', E('v0'))]
+        yield [('I', E(), [('A', N('v0'), E('a'))], t1), ('R', E('v0'))]
+
 def rand_program(R, pool=4):
     """a random larger program, biased towards acceptance (names mostly used after they were
     defined on the path at hand) so that many of them reach the run stage"""
@@ -532,7 +701,7 @@ CORPUS = [
 # ---------------------------------------------------------------------------
 # real code
 
-def real_decision(fp, fn_py):
+def real_decision(fp, fn_py, num=Namer.num):
     from fpy2.analysis.syntax_check import FPySyntaxError
     from fpy2.analysis.reachability import ReachabilityError
     import re
@@ -542,9 +711,9 @@ def real_decision(fp, fn_py):
     except FPySyntaxError as e:
         msg = str(e)
         m = re.match(r'unbound variable `(\w+)`', msg)
-        if m: return f'reject unbound {Namer.num(m.group(1))}', None
+        if m: return f'reject unbound {num(m.group(1))}', None
         m = re.match(r'variable `(\w+)` not defined along all paths', msg)
-        if m: return f'reject notallpaths {Namer.num(m.group(1))}', None
+        if m: return f'reject notallpaths {num(m.group(1))}', None
         return 'other FPySyntaxError ' + msg[:80], None
     except ReachabilityError as e:
         msg = str(e)
@@ -554,7 +723,7 @@ def real_decision(fp, fn_py):
     except Exception as e:   # noqa
         return f'other {type(e).__name__} {str(e)[:80]}', None
 
-def real_run(f, args):
+def real_run(f, args, num=Namer.num):
     """-> outcome in the model's vocabulary ('returned' | 'felloff' | 'unbound <n>') or 'other …',
     and where the failure came from"""
     from fpy2.ast import NamedId
@@ -567,10 +736,16 @@ def real_run(f, args):
         n = getattr(e, 'name', None)
         if n is None:
             m = re.search(r"'(\w+)'", str(e)); n = m.group(1) if m else '?'
-        return f'unbound {Namer.num(n)}', type(e).__name__
+        return f'unbound {num(n)}', type(e).__name__
     except KeyError as e:
         if e.args and isinstance(e.args[0], NamedId):
-            return f'unbound {Namer.num(str(e.args[0]))}', 'KeyError(define_use)'
+            return f'unbound {num(str(e.args[0]))}', 'KeyError(define_use)'
+        if e.args and isinstance(e.args[0], str) and e.args[0].isidentifier():
+            # the byte-code compiler looking a free variable up in the defining environment
+            try:
+                return f'unbound {num(e.args[0])}', 'KeyError(environment lookup)'
+            except ValueError:
+                pass
         return f'other KeyError {e}', ''
     except TypeError as e:
         if 'not an FPy value: None' in str(e): return 'felloff', 'from_value(None)'
@@ -583,8 +758,9 @@ class _Shim:
     import contextlib as _c
     FP64 = _c.nullcontext(64.0)
     FP32 = _c.nullcontext(32.0)
+    fpy = staticmethod(lambda f: f)
 
-def plain_run(pyf, args):
+def plain_run(pyf, args, num=Namer.num):
     """the rendered source executed by CPython itself: the reference for the model's `exec`
     (binding semantics of the compiled body, without the interpreter's pre-pass)"""
     import re
@@ -595,7 +771,7 @@ def plain_run(pyf, args):
         n = getattr(e, 'name', None)
         if n is None:
             m = re.search(r"'(\w+)'", str(e)); n = m.group(1) if m else '?'
-        return f'unbound {Namer.num(n)}'
+        return f'unbound {num(n)}'
     except Exception as e:   # noqa
         return f'other {type(e).__name__} {str(e)[:80]}'
 
@@ -627,8 +803,10 @@ def run(rep, tier, seed):
     quick = tier != 'thorough'
     t0 = time.time()
     progs: list[Prog] = []
-    # 1. corpus, 2. exhaustive by size, 3. random larger programs
-    for b in CORPUS: progs.append(Prog(b, R, len(progs), 'corpus'))
+    collide = [k for k in SCHEMES if k != 'plain']
+    # 1. corpus (under every environment), 2. exhaustive by size, 3. random larger programs
+    for b in CORPUS:
+        for k in SCHEMES: progs.append(Prog(b, R, len(progs), 'corpus', k))
     levels = [(2, 2, True)] if quick else [(2, 3, True), (3, 2, True)]
     ex_count = {}
     seen_abs = set()
@@ -639,16 +817,30 @@ def run(rep, tier, seed):
             if key in seen_abs: continue
             seen_abs.add(key)
             progs.append(Prog(b, R, len(progs), f'exhaustive<={size}'))
-        ex_count[f'size<={size},names={pool},{"rich" if rich else "reduced"}-menu'] = len(progs) - n0
+            # the same program with its locals named like things the decorator can see: the smallest
+            # level under EVERY environment, larger ones under one drawn at random
+            has_var = 'v0' in key
+            if has_var:
+                for k in (collide if size <= 2 else [R.choice(collide)] if R.random() < 0.5 else []):
+                    progs.append(Prog(b, R, len(progs), f'exhaustive<={size}', k))
+        ex_count[f'size<={size},names={pool},{"rich" if rich else "reduced"}-menu'] = len(seen_abs)
+        ex_count[f'size<={size}: renderings incl. environments'] = len(progs) - n0
+    # returning blocks of every shape opposite a branch that defines a name used afterwards
+    n0 = len(progs)
+    fam2 = list(lend_family(2))
+    fam3 = [b for b in lend_family(3) if repr(b) not in {repr(x) for x in fam2}]
+    for b in fam2 + (R.sample(fam3, 500) if quick else fam3):
+        progs.append(Prog(b, R, len(progs), 'returning-branch-family', 'plain' if R.random() < 0.6 else R.choice(collide)))
+    ex_count['returning-branch family (blocks <=2 all' + (', <=3 sample of 500)' if quick else ', <=3 all)')] = len(progs) - n0
     if quick:
         # a seeded sample of the size-3 level as well
         lvl3 = [b for b in enum_programs(3, 2, True) if repr(b) not in seen_abs]
-        for b in R.sample(lvl3, min(1200, len(lvl3))):
-            progs.append(Prog(b, R, len(progs), 'sample-of-size-3'))
-    nrand = 2500 if quick else 40000
+        for b in R.sample(lvl3, min(800, len(lvl3))):
+            progs.append(Prog(b, R, len(progs), 'sample-of-size-3', R.choice(SCHEMES)))
+    nrand = 2000 if quick else 30000
     for _ in range(nrand):
-        progs.append(Prog(rand_program(R), R, len(progs), 'random'))
-    rep.count('origin:corpus', len(CORPUS))
+        progs.append(Prog(rand_program(R), R, len(progs), 'random', 'plain' if R.random() < 0.4 else R.choice(collide)))
+    rep.count('origin:corpus', len(CORPUS) * len(SCHEMES))
     t_gen = time.time() - t0
 
     tmp = tempfile.mkdtemp(prefix='c15_', dir='/var/tmp')
@@ -659,13 +851,15 @@ def run(rep, tier, seed):
             chunk = progs[ci:ci + CH]
             name = f'c15mod_{seed}_{ci}'
             path = os.path.join(tmp, name + '.py')
+            body = '\n'.join(p.src for p in chunk)
             with open(path, 'w') as fh:
-                fh.write('import fpy2 as fp\n\n' + '\n'.join(p.src for p in chunk))
+                fh.write(PRELUDE + body)
             mod = load_module(path, name)
-            ns = {'fp': _Shim}
-            exec(compile('\n'.join(p.src for p in chunk), f'<{name}:plain>', 'exec'), ns)   # noqa: S102
+            ns = {'_Shim': _Shim}
+            plain = PRELUDE.replace('import fpy2 as fq', 'fq = _Shim').replace('import fpy2 as fp', 'fp = _Shim')
+            exec(compile(plain + body, f'<{name}:plain>', 'exec'), ns)   # noqa: S102
             for p in chunk:
-                p.real, p.fn = real_decision(fp, getattr(mod, p.fname))
+                p.real, p.fn = real_decision(fp, getattr(mod, p.fname), p.num)
                 p.py = ns[p.fname]
         t_front = time.time() - t0 - t_gen
         lines = []
@@ -680,6 +874,13 @@ def run(rep, tier, seed):
             rep.count('origin:' + p.origin.split('<')[0]) if p.origin != 'corpus' else None
             stmt_kinds(p.abs, rep)
             rep.count('frontend:' + ' '.join(p.real.split()[:2]))
+            rep.count(f'environment:{p.scheme}')
+            if p.collisions: rep.count(f'frontend[a local collides with the environment]:' + ' '.join(p.real.split()[:2]))
+            if p.free: rep.count(f'frontend[has free variables]:' + p.real.split()[0])
+            for c in p.collisions:
+                rep.count('local named like:' + ('builtin' if c in BUILTIN_NAMES else 'module number' if c in GNUM_NAMES else
+                          'module function/module' if c in GOBJ_NAMES else 'closure variable' if c in CLOSURE_NAMES else
+                          'parameter' if c == 'a' else 'own function name'))
             rep.count(f'frontend[{p.origin.split("<")[0]}]:' + p.real.split()[0])
             if p.real != m_real:
                 rep.broke('correspondence', 'C15.check', f'real={p.real} model={m_real}\n{p.src}\ncheck real {p.toks}')
@@ -699,14 +900,14 @@ def run(rep, tier, seed):
             rep.count('inputs:exhaustive' if total <= cap else 'inputs:sampled')
             for inp in inputs:
                 args = p.call_args(inp)
-                got, how = real_run(p.fn, args)
+                got, how = real_run(p.fn, args, p.num)
                 rep.count('run:' + got.split()[0] + (f'[{how}]' if how else ''))
                 ch = simulate(p.body, inp)
                 chs = f'{len(ch)} ' + ' '.join(map(str, ch))
                 run_lines.append(f'run 0 {FUEL} {p.toks} {chs}')
                 run_meta.append(('C15.run', p, inp, got))
                 run_lines.append(f'exec 0 {FUEL} {p.toks} {chs}')
-                pl = plain_run(p.py, args)
+                pl = plain_run(p.py, args, p.num)
                 run_meta.append(('C15.exec', p, inp, pl))
                 rep.count('accepted,plain-python-binding-semantics:' + pl.split()[0])
                 if got.startswith('other'):
@@ -720,8 +921,8 @@ def run(rep, tier, seed):
                     what = ('accepted program fails with an unbound variable' if got.startswith('unbound')
                             else 'accepted program falls off its end')
                     rep.count('violation-programs')
-                    rep.violation(f'{what} ({got.split()[0]} `{Namer.name(int(got.split()[1])) if " " in got else ""}` via {how})',
-                                  {'program': p.src, 'args': args, 'steering': inp, 'outcome': got, 'raised': how,
+                    rep.violation(f'{what} ({got.split()[0]} `{p.show(got.split()[1]) if " " in got else ""}` via {how})',
+                                  {'program': PRELUDE + p.src, 'fname': p.fname, 'environment': p.scheme, 'args': args, 'steering': inp, 'outcome': got, 'raised': how,
                                    'failing_inputs': 1, 'inputs_tried': len(inputs), 'finding': None})
                     seen_viol[key] = rep.violations[-1]
         # (c) binding semantics of the model (`exec`, no pre-pass) against CPython running the same source,
@@ -733,7 +934,7 @@ def run(rep, tier, seed):
             for inp in inputs:
                 ch = simulate(p.body, inp)
                 run_lines.append(f'exec 0 {FUEL} {p.toks} {len(ch)} ' + ' '.join(map(str, ch)))
-                run_meta.append(('C15.exec', p, inp, plain_run(p.py, p.call_args(inp))))
+                run_meta.append(('C15.exec', p, inp, plain_run(p.py, p.call_args(inp), p.num)))
         model_runs = run_driver(run_lines) if run_lines else []
         rep.cov['evaluations'] += len(run_lines)
         for (name, p, inp, got), mr, line in zip(run_meta, model_runs, run_lines):
@@ -751,6 +952,11 @@ def run(rep, tier, seed):
         rep.cov['exhaustive'] = ex_count
         rep.cov['timing_s'] = {'generate': round(t_gen, 1), 'front_end': round(t_front, 1), 'total': round(time.time() - t0, 1)}
         rep.cov['rule'] = (
+            'environments: each corpus program and each program of the smallest exhaustive level is rendered under 7 naming '
+            'environments (plain; locals named like builtins / module numbers / module functions+modules / closure variables of an '
+            'enclosing def / own function name + parameter / mixed), larger levels and random programs under one drawn at random; '
+            'free variables (used, not bound at function level per CPython\'s symbol table, resolvable) are bound on entry in the model. '
+            'returning-branch family: `if c: <every block of <=2 (sample of <=3) statements that always returns> else: v = a` and mirrored, then `return v`. '
             'programs: fixed corpus + EVERY program (canonical up to renaming of its variables) with at most N statements over '
             'assignments (name and tuple patterns), return, pass, if/else, one-armed if, while, for (name, tuple, `_` targets), '
             'with [as], comprehensions, with uses drawn from {none, the real argument, each variable} (levels in `exhaustive`) '
@@ -765,6 +971,8 @@ def run(rep, tier, seed):
         rep.assumptions += [
             'Spec oracle: NameError/UnboundLocalError from the compiled body, KeyError(NamedId) from the interpreter\'s definition-use pre-pass, '
             'or a None result (from_value(None)) when calling the accepted Function count as the forbidden failures',
+            'the model binds a function\'s free variables on entry; which names are free is read off CPython\'s compilation of the same source '
+            '(co_names/co_freevars) intersected with what the generated module, the enclosing def and builtins define',
             'an `if` takes the same branch each time it is reached within one run (one steering argument per site); the Lean theorem quantifies over all oracles',
         ]
     finally:
@@ -780,16 +988,16 @@ def replay(rep, data):
     try:
         for i, v in enumerate(data.get('violations', [])):
             path = os.path.join(tmp, f'c15replay_{i}.py')
-            with open(path, 'w') as fh: fh.write('import fpy2 as fp\n\n' + v['program'])
+            with open(path, 'w') as fh: fh.write(v['program'])
             mod = load_module(path, f'c15replay_{i}')
-            fname = v['program'].split('(')[0].split()[1]
-            dec, f = real_decision(fp, getattr(mod, fname))
+            fname = v['fname']
+            dec, f = real_decision(fp, getattr(mod, fname), str)
             if f is None:
                 print(f'[{i}] front end now says: {dec}'); continue
             def tup(e): return tuple(tup(x) for x in e) if isinstance(e, (list, tuple)) else e
             args = [[tup(e) for e in a] if isinstance(a, list) else a for a in v['args']]
-            got, how = real_run(f, args)
-            print(f'[{i}] {got} {how}   (recorded: {v.get("outcome")})')
+            got, how = real_run(f, args, str)
+            print(f'[{i}] {got} {how}   (recorded: {v.get("what")})')
             if got != 'returned': rc = 1
     finally:
         shutil.rmtree(tmp, ignore_errors=True)
